@@ -1,8 +1,14 @@
 package main
 
 import (
+	"bufio"
+	"bytes"
 	"encoding/hex"
 	"fmt"
+	"io"
+	"strings"
+
+	"github.com/M2MGateway/go-smpp/sms"
 )
 
 func init() { corrTable["C18"] = corrC18 }
@@ -42,16 +48,25 @@ var c18Corpus = []string{
 	"0000070000024142", "000087", "019101070000024142", "01910187",
 }
 
+// c18Pinned: the first eight corpus entries are the samples of the repository's TestMarshal (decoded and
+// re-encoded there); their values are pinned by the unedited test-suite
+const c18Pinned = 8
+
 func corrC18(r *Run) {
 	r.Import("Model.TpduRun")
 	r.Rule = "inputs: corpus (repository samples, pre-fix witnesses, edge cases), then well-formed TPDUs of all six types and both report " +
-		"flavours, each also with one field replaced by arbitrary octets (filler / non-decimal nibbles, length lies, resized, truncated) " +
-		"and cut at every position, then random octet strings; non-trivial = distinct inputs longer than 2 octets; " +
-		"every input is also a model case (outcome class; decoded value and re-encoded octets when it decodes)"
+		"flavours, each also with one field replaced by arbitrary octets (filler / non-decimal nibbles, length lies, resized, truncated, " +
+		"each time-stamp component 00 / 0F / F0 / FF in turn) and cut at every position, inputs of more than 4096 octets, then random octet strings; " +
+		"every input is decoded through bytes.NewReader AND through four readers that hand out the same octets in pieces (one octet per Read, " +
+		"half reads, io.EOF together with the last data, a random chunk schedule); non-trivial = distinct inputs longer than 2 octets; " +
+		"STRICT model cases (decoded value + re-encoded octets must equal the model's): the repository's samples and the well-formed SMS-DELIVER / " +
+		"SMS-SUBMIT TPDUs, i.e. where C19 or the repository's tests fix the values; every other (hostile) input is a direct test of what C18 states " +
+		"(no panic, one of the eight structures or an error, Marshal of the result returns, the same result through every reader) and an ADVISORY " +
+		"model case: a disagreement there is a note in the evidence, not a violation, so that hardening the decoder keeps this check quiet"
 	r.PerShard(250)
 	seen := map[string]bool{}
 	nSample := 0
-	try := func(in []byte, bucket, label string) {
+	tryS := func(in []byte, bucket, label string, strict bool) {
 		key := hex.EncodeToString(in)
 		if seen[key] {
 			return
@@ -72,30 +87,51 @@ func corrC18(r *Run) {
 			r.Fail("marshal-panic/"+o.Name+"/"+label, "sms.Marshal panicked on a structure sms.Unmarshal returned",
 				input, fmt.Sprintf("decoded %s %+v; panic: %s", o.Name, o.Packet, o.EncPanic), "Marshal returns normally")
 		}
+		smsMarshalTwice(r, o, label, input, false)
+		smsReaderIndependence(r, in, o, label, input)
 		// model cases
+		emit := r.Advisory
+		if !strict && r.Quick && bucket != "corpus" && !strings.HasSuffix(label, "/well-formed") && fnv64(key)%3 != 0 {
+			// quick tier: every hostile input is a direct test, one in three is also an advisory model case
+			emit = func(string, string) {}
+			r.Hist["model case: none (direct test only)"]++
+			r.Hist["model case: advisory"]--
+		}
+		if strict {
+			emit = r.Case
+			r.Hist["model case: strict"]++
+		} else {
+			r.Hist["model case: advisory"]++
+		}
 		desc := label + " " + key
+		if len(desc) > 300 {
+			desc = desc[:300] + "..."
+		}
 		switch {
 		case o.Class == 0 && o.ValidType && o.EncClass == 0:
-			r.Case(desc, fmt.Sprintf("sms_dec_is %s \"%s\" %s && sms_enc_is %s %s",
+			emit(desc, fmt.Sprintf("sms_dec_is %s \"%s\" %s && sms_enc_is %s %s",
 				coqHex(in), o.Name, o.Term, coqHex(in), coqHex(o.Out)))
 			if nSample < 6 && len(in) > 8 {
 				nSample++
 				r.Sample(map[string]interface{}{"input": key, "how": label, "decoded": o.Name, "re-encoded": hex.EncodeToString(o.Out)})
 			}
 		case o.Class == 0 && o.ValidType:
-			r.Case(desc, fmt.Sprintf("sms_dec_is %s \"%s\" %s && (sms_enc_class %s =? %d)",
+			emit(desc, fmt.Sprintf("sms_dec_is %s \"%s\" %s && (sms_enc_class %s =? %d)",
 				coqHex(in), o.Name, o.Term, coqHex(in), o.EncClass))
 		default:
-			r.Case(desc, fmt.Sprintf("sms_class %s =? %d", coqHex(in), o.Class))
+			emit(desc, fmt.Sprintf("sms_class %s =? %d", coqHex(in), o.Class))
 			if o.Class == 1 && nSample < 9 && len(in) > 8 {
 				nSample++
 				r.Sample(map[string]interface{}{"input": key, "how": label, "outcome": "error"})
 			}
 		}
 	}
-	for _, in := range smsHexList(c18Corpus) {
-		try(in, "corpus", "corpus")
+	try := func(in []byte, bucket, label string) { tryS(in, bucket, label, false) }
+	for i, in := range smsHexList(c18Corpus) {
+		tryS(in, "corpus", "corpus", i < c18Pinned)
 	}
+	c18FieldDecoders(r)
+	c18ReaderScripts(r)
 	// every first octet x failure bit x SC present, with a short tail
 	for sc := 0; sc < 2; sc++ {
 		for fo := 0; fo < 256; fo += 1 {
@@ -118,9 +154,30 @@ func corrC18(r *Run) {
 	nMut := r.N(14, 40)
 	for _, kind := range smsKinds {
 		for b := 0; b < nBase; b++ {
-			base := smsBase(r.Rng, kind)
+			base := smsBase(r.Rng, kind, b)
 			whole := base.Bytes()
-			try(whole, "well-formed "+kind, kind+"/well-formed")
+			tryS(whole, "well-formed "+kind, kind+"/well-formed", kind == "deliver" || kind == "submit")
+			if b < 1 {
+				// more than one bufio buffer of input: the TPDU followed by 4096..9000 further octets
+				long := append(append([]byte{}, whole...), r.Rng.Bytes(4096+r.Rng.Intn(600))...)
+				try(long, "more than 4096 octets: "+kind, kind+"/long-input")
+			}
+			// every time-stamp component in turn as 00, 0F (non-decimal units), F0 (filler), FF
+			for si, sg := range base {
+				if sg.Name != "SCTS" && sg.Name != "DT" && !(sg.Name == "VP" && len(sg.B) == 7) {
+					continue
+				}
+				for c := 0; c < len(sg.B); c++ {
+					for _, v := range []byte{0x00, 0x0F, 0xF0, 0xFF} {
+						if b >= 2 && r.Quick && r.Rng.Intn(4) != 0 || b >= 10 && r.Rng.Intn(6) != 0 {
+							continue
+						}
+						m := base.Clone()
+						m[si].B[c] = v
+						try(m.Bytes(), "time-stamp component replaced: "+kind, fmt.Sprintf("%s/%s/component-%d=%02X", kind, sg.Name, c, v))
+					}
+				}
+			}
 			// cut at every position (quick: every position of the first two bases, then a stride)
 			step := 1
 			if b >= 2 && r.Quick {
@@ -140,7 +197,7 @@ func corrC18(r *Run) {
 		}
 	}
 	// random octet strings, SC length biased small so that the type peek succeeds
-	nRand := r.N(1500, 12000)
+	nRand := r.N(1100, 12000)
 	for i := 0; i < nRand; i++ {
 		n := r.Rng.Intn(48)
 		in := r.Rng.Bytes(n)
@@ -152,5 +209,94 @@ func corrC18(r *Run) {
 			in[1] = byte(r.Rng.Intn(256))
 		}
 		try(in, "random octets", "random")
+	}
+}
+
+// c18FieldDecoders calls the exported field decoders the anchors name (Time, Address, SCAddress, Duration,
+// EnhancedDuration .ReadFrom) directly, on arbitrary octets through plain and chunked readers that are NOT a
+// bufio.Reader: each must return a value or an error (the same code sms.Unmarshal runs, reached without it).
+func c18FieldDecoders(r *Run) {
+	type dec struct {
+		name string
+		run  func(rd io.Reader) error
+	}
+	decs := []dec{
+		{"Time", func(rd io.Reader) error { var x sms.Time; _, err := x.ReadFrom(rd); return err }},
+		{"Address", func(rd io.Reader) error { var x sms.Address; _, err := x.ReadFrom(rd); return err }},
+		{"SCAddress", func(rd io.Reader) error { var x sms.SCAddress; _, err := x.ReadFrom(rd); return err }},
+		{"Duration", func(rd io.Reader) error { var x sms.Duration; _, err := x.ReadFrom(rd); return err }},
+		{"EnhancedDuration", func(rd io.Reader) error { var x sms.EnhancedDuration; _, err := x.ReadFrom(rd); return err }},
+	}
+	n := r.N(150, 1500)
+	for _, d := range decs {
+		for i := 0; i < n; i++ {
+			in := r.Rng.Bytes(r.Rng.Intn(12))
+			if len(in) > 0 && r.Rng.Bool() {
+				in[r.Rng.Intn(len(in))] |= byte(r.Rng.Pick([]int{0xF0, 0x0F, 0xFF}))
+			}
+			if len(in) > 1 && d.name == "EnhancedDuration" {
+				in[0] = in[0]&0xF8 | byte(r.Rng.Intn(4))
+			}
+			r.Count("fielddec/"+d.name+"/"+hex.EncodeToString(in), len(in) > 0, "field decoder called directly: "+d.name)
+			for _, k := range append([]smsReaderKind{{"bytes.Reader", func(_ *Rng, in []byte) io.Reader { return bytes.NewReader(in) }}}, smsReaderKinds...) {
+				if p, msg := guard(func() { _ = d.run(k.New(r.Rng, in)) }); p {
+					r.Fail("field-decoder-panic/"+d.name, "sms."+d.name+".ReadFrom panicked on arbitrary octets", "fielddec "+d.name+" "+hex.EncodeToString(in)+" via "+k.Name,
+						"panic: "+msg, "a value or an error")
+				}
+			}
+		}
+	}
+}
+
+// c18ReaderScripts ties the bufio model of Model/TpduReader.v (about which C18_reader_independence_partial speaks) to
+// the real bufio.Reader: a random script of the four primitives the decoder uses (ReadByte, readFull = io.ReadFull with
+// io.ErrUnexpectedEOF read as nil, Peek, Discard) runs on bufio.NewReader over a reader with a random chunk schedule;
+// the model must give the same observations on the chunked reader AND on the plain list.  Go library behaviour only:
+// independent of the repository's code, so these are ordinary (strict) cases.
+func c18ReaderScripts(r *Run) {
+	r.Import("Model.TpduReader")
+	n := r.N(120, 1200)
+	for i := 0; i < n; i++ {
+		data := r.Rng.Bytes(r.Rng.Intn(40))
+		sched := randSched(r.Rng, len(data)/(1+r.Rng.Intn(3)))
+		eofd := r.Rng.Bool()
+		br := bufio.NewReader(&schedReader{data: append([]byte{}, data...), sched: append([]int{}, sched...), eofWithData: eofd})
+		var ops, obs []string
+		for k := 0; k < 2+r.Rng.Intn(7); k++ {
+			var got []byte
+			var err error
+			arg := r.Rng.Intn(9)
+			switch r.Rng.Intn(4) {
+			case 0:
+				var b byte
+				b, err = br.ReadByte()
+				got = []byte{b}
+				ops = append(ops, "RByte")
+			case 1:
+				got = make([]byte, arg)
+				if _, err = io.ReadFull(br, got); err == io.ErrUnexpectedEOF {
+					err = nil
+				}
+				ops = append(ops, fmt.Sprintf("RFull %d", arg))
+			case 2:
+				got, err = br.Peek(arg)
+				ops = append(ops, fmt.Sprintf("RPeek %d", arg))
+			default:
+				_, err = br.Discard(arg)
+				ops = append(ops, fmt.Sprintf("RDiscard %d", arg))
+			}
+			if err != nil {
+				obs = append(obs, "None")
+				break
+			}
+			obs = append(obs, "(Some "+coqHex(got)+")")
+		}
+		sc := make([]string, len(sched))
+		for j, x := range sched {
+			sc[j] = fmt.Sprintf("%d%%nat", x)
+		}
+		r.Count(fmt.Sprintf("readerscript/%d", i), true, "bufio script on a chunked reader")
+		r.Case(fmt.Sprintf("bufio script %x %v %v: %s", data, sched, eofd, strings.Join(ops, "; ")),
+			fmt.Sprintf("script_is %s %s %s %s %s", coqHex(data), coqList(sc), coqBool(eofd), coqList(ops), coqList(obs)))
 	}
 }
